@@ -323,6 +323,15 @@ class PrintrunWriter(BaseWriter):
         """Callback to handle errors reported by printrun."""
 
         self._logger.error("Error: %s", message)
+
+        # Error lines sent by the device are also delivered to
+        # `_on_device_message`, which has already recorded them.
+        # Recording them twice makes the next write fail and every
+        # later write return before its own acknowledgment.
+
+        if str(message).strip().lower().startswith(ERROR_PREFIXES):
+            return
+
         self._device_error = DeviceError(message)
         self._ack_event.set()
 
